@@ -116,7 +116,7 @@ func (f *frame) execInstr(ins ssa.Instruction, in string, st *State) {
 	case *ssa.MakeSlice:
 		l := f.val(x.Len).T
 		c := f.val(x.Cap).T
-		vc.obligeIn(f, "makeslice", vc.anchorAt(f.fn, x.Pos(), "call"), in, And(App("<=", "0", l), App("<=", l, c)), x.Pos(), "make: 0 <= len <= cap")
+		vc.obligeIn(f, "makeslice", vc.anchorAt(f.fn, x.Pos(), "call"), in, And(App("<=", "0", l), App("<=", l, c), App("<=", c, "1099511627776")), x.Pos(), "make: 0 <= len <= cap <= 2^40 (allocation size is bounded; existing slices are assumed to have at most 2^40 elements)")
 		base := f.alloc(x.Name(), in, st)
 		et := x.Type().Underlying().(*types.Slice).Elem()
 		var conj []string
